@@ -8,6 +8,8 @@
     C02_content_text / _attr   the two instances used by the builder
     C02_xmlid_partial     normalize_xml_id = strip + collapse when at most one space stands at
                           either end
+    C02_merge, C02_scope_nearest / _base / _unprefixed_attribute   builder-side pieces of merging
+                          and XML-Namespaces scoping
   Proved negations (closed witnesses, replayed on the implementation by the `build` suite):
     C02_xmlid_false       `xml:id="  x"` keeps a leading space
     C02_cdata_line_ends_false   CR LF inside CDATA is kept verbatim
@@ -103,5 +105,35 @@ example : (build .document goodDocLen Env.fresh goodDoc none).flat =
     some [(0, .document), (1, .element 2), (2, .namespace 2 2), (2, .attribute 3 []),
       (2, .comment ['c']), (2, .text ['t'])] := by
   rw [build_eq_buildE]; decide +kernel
+
+/-! ### Merging and scoping, as far as proved -/
+
+/-- C02_merge (builder side): feeding two pieces of character data one after the other yields the
+    same single text node (same path) as feeding their concatenation; by induction a run of text
+    and CDATA tokens becomes one text node holding the concatenation of the parts as the builder
+    takes them (text parts decoded by `parse_text`, CDATA parts VERBATIM: see
+    `C02_cdata_line_ends_false`). -/
+theorem C02_merge (b : Builder) (c1 c2 : Str) : (b.addText c1).1.addText c2 = b.addText (c1 ++ c2) :=
+  addText_addText b c1 c2
+
+/-- C02_scope, nearest declaration wins: a prefix is looked up on the element's own start tag
+    first (there the LAST declaration of the prefix), then on the enclosing elements. -/
+theorem C02_scope_nearest (d : List (Nat × Nat)) (st : NsStack) (p : Nat) :
+    lookupPrefix (d :: st) p = (match findInDecls p d with | some ns => some ns | none => lookupPrefix st p) :=
+  lookupPrefix_cons d st p
+
+/-- `xml` is bound to the XML namespace and the empty prefix to no namespace at the outset. -/
+theorem C02_scope_base (env : Env) :
+    lookupPrefix (Builder.new env).nsStack Env.xmlPrefix = some Env.xmlNamespace ∧
+    lookupPrefix (Builder.new env).nsStack Env.emptyPrefix = some Env.noNamespace :=
+  ⟨lookup_xml_new env, lookup_default_new env⟩
+
+/-- An unprefixed attribute is in no namespace, whatever the default namespace is. -/
+theorem C02_scope_unprefixed_attribute (env : Env) (stack : NsStack) (name : Str) (sp : Span)
+    (h : env.prefixes.head? = some []) :
+    attributeNameId env stack [] name sp = .ok (env.internName name Env.noNamespace) :=
+  attributeNameId_unprefixed env stack name sp h
+
+example : Env.fresh.prefixes.head? = some [] := rfl
 
 end XotModel.Props
